@@ -348,7 +348,9 @@ func (p *Pipeline) doHandle(ctx *context.Context, flow []FlowNode, stats []Filte
 		node := &flow[i]
 		alias := node.filterAlias()
 
-		if next != "" && next != alias {
+		// While a jump is pending, END nodes are skipped like any other
+		// node: ValidateJumpIf does not accept them as jump targets.
+		if next != "" && (next != alias || node.FilterName == BuiltInFilterEnd) {
 			continue
 		}
 
